@@ -42,7 +42,7 @@ Seg(i) == TS[i]
 KindOf  == LET ts == TS IN [i \in DOMAIN ts |-> Kind(ts[i])]
 RankOf  == LET ts == TS IN [i \in DOMAIN ts |-> Rank(ts[i])]
 ShapeOf == LET ts == TS IN [i \in DOMAIN ts |-> Shape(ts[i])]
-PathSegs   == LET ts == TS IN {i \in DOMAIN ts : IsPathSeg(ts[i])}       \* {name:path}
+PathSegs   == LET ts == TS IN {i \in DOMAIN ts : IsPathSeg(ts[i])}       \* {name:path}, {name:<user-defined multi-segment converter>}
 PathInside == LET ts == TS IN {i \in DOMAIN ts : HasPathField(ts[i])}    \* a path field anywhere in the segment
 MatchAt(i, s) == MatchK(KindOf[i], TS[i], s)                              \* = Match(TS[i], s)
 Last(s) == s[Len(s)]
@@ -76,9 +76,12 @@ Dfs(t, pre, path, params) ==
             IF i > Len(kids) THEN Miss
             ELSE LET s == kids[i]  n == Append(pre, s)  seg == Seg(s) IN
                  IF s \in PathSegs
-                 THEN (IF t[n].res # NoRes      \* a trailing path field swallows the rest of the path
-                       THEN Hit(t, n, params \o <<Cap(seg.items[1].f, Val("str", JoinSlash(SubSeq(path, lvl, Len(path)))))>>)
-                       ELSE Try(i + 1))
+                 THEN (LET val == IF t[n].res # NoRes      \* a trailing multi-segment field swallows the rest of the path,
+                                  THEN ConvertRest(seg.items[1].c, SubSeq(path, lvl, Len(path)))   \* its converter sees the LIST
+                                  ELSE None IN
+                       IF val # None
+                       THEN Hit(t, n, params \o <<Cap(seg.items[1].f, val)>>)
+                       ELSE Try(i + 1))             \* no route here, or the converter vetoes: on to the next sibling
                  ELSE LET m == MatchAt(s, path[lvl]) IN
                       IF ~m.ok THEN Try(i + 1)
                       ELSE LET deeper == IF Len(path) > lvl THEN Dfs(t, n, path, params \o m.caps) ELSE Miss IN
@@ -168,12 +171,13 @@ RefTree(acc) == [n \in RefNodes(acc) |-> [res |-> RefRes(acc, n), kids |-> RefKi
 Routes(acc) == {n \in RefNodes(acc) : RefRes(acc, n) # NoRes}
 TmplMatches(tp, p) ==
     IF Last(tp) \in PathSegs
-    THEN Len(p) >= Len(tp) /\ \A i \in 1..(Len(tp) - 1) : MatchAt(tp[i], p[i]).ok
+    THEN /\ Len(p) >= Len(tp) /\ \A i \in 1..(Len(tp) - 1) : MatchAt(tp[i], p[i]).ok
+         /\ ConvertRest(Seg(Last(tp)).items[1].c, SubSeq(p, Len(tp), Len(p))) # None
     ELSE Len(p) = Len(tp) /\ \A i \in 1..Len(tp) : MatchAt(tp[i], p[i]).ok
 TmplParams(tp, p) ==
     Concat([i \in DOMAIN tp |->
               IF tp[i] \in PathSegs
-              THEN <<Cap(Seg(tp[i]).items[1].f, Val("str", JoinSlash(SubSeq(p, i, Len(p)))))>>
+              THEN <<Cap(Seg(tp[i]).items[1].f, ConvertRest(Seg(tp[i]).items[1].c, SubSeq(p, i, Len(p))))>>
               ELSE MatchAt(tp[i], p[i]).caps])
 FirstAt(acc, n) == CHOOSE i \in DOMAIN acc : IsPrefixOf(n, acc[i].t) /\ \A j \in 1..(i - 1) : ~IsPrefixOf(n, acc[j].t)
 Before(acc, a, b) ==                       \* route a is visited before route b (a # b, neither a prefix of the other)
